@@ -845,7 +845,7 @@ def classify(results, evaluate=run_shapes):
                 if nxt is None:
                     sk = skeleton(cur)
                     if kind(s) == 'bad':                      # -+-a and a%%% are one operator class each
-                        sk = re.sub(r'\b(unary|pct)(_\1)+\b', r'\1', sk)
+                        sk = re.sub(r'(?<![a-z])(unary|pct)(_\1)+(?![a-z])', r'\1', sk)
                     keys[cur] = ('C01.group.' if kind(s) == 'bad' else 'C01.reject.') + sk + '|' + cur
                     break
                 cur = nxt
